@@ -10,7 +10,7 @@ LEVEL = "exploration"
 RULE = ("exhaustive: attempts 1..A x every outcome sequence of that length over {ok, Base, SubA(Base), SubB(Base), "
         "Other, OSError} cut at the first ok x every disjoint (retry_for, do_not_retry_for) pair of subsets of the "
         "classes (None when empty) x {tuple, list, set} spelling x retry_delay {0, 0.25} x method name; quick: A=4 and "
-        "4 classes, thorough: A=5 and 5 classes. Oracle: a reference loop written from the statement gives the number "
+        "4 classes, thorough: A=6 and 5 classes. Oracle: a reference loop written from the statement gives the number "
         "of inner invocations, the sleeps and the outcome (first ok result by identity / final attempt's exception "
         "object by identity); arguments must reach the inner method unchanged each time. Invalid configurations must "
         "raise at construction; neighbouring valid ones must not. Non-trivial: >=2 invocations were needed or a filter "
@@ -142,7 +142,7 @@ def _subsets(n):
 
 
 def cases(tier, seed):
-    A, ncls = (4, 4) if tier == "quick" else (5, 5)
+    A, ncls = (4, 4) if tier == "quick" else (6, 5)
     subs = _subsets(ncls)
     pairs = [(rf, dn) for rf in subs for dn in subs if not set(rf) & set(dn)]
     for attempts in range(1, A + 1):
